@@ -397,8 +397,22 @@ class Session:
                 self.broker.rebalance(reb)
                 return reb
 
+            def probe():
+                trk = self.broker.track_record
+                try:
+                    last = None if len(trk) == 0 else id(trk[-1])
+                except Exception as e_:  # noqa
+                    last = "raises " + type(e_).__name__
+                try:
+                    shown = repr(trk)
+                except Exception as e_:  # noqa  (an empty record cannot be printed)
+                    shown = "raises " + type(e_).__name__
+                return (len(trk), shown, last)
+
+            probe_before = probe()
             self._reb = None
             st, reb = self.call(go)
+            o["record_probe"] = (probe_before, probe())
             line = f"rebal {t} {int(bw)} {int(ab)} {int(frac)} {fr(fmg)} " + " ".join(f"{k}={fr(v)}" for k, v in zip(keys, vals))
             reb = self._reb
             interest = getattr(reb, "profit_on_idle_cash", ...) if reb is not None else ...
@@ -528,7 +542,10 @@ HISTORY_RULE = (" Histories also contain: several operations with one timestamp 
                 "which the epsilon snap fires on more than rounding dust are skipped and counted (K1). In a fifth of the histories a "
                 "second account lives on the same Exchange object, trades the same contracts and is valued right before / "
                 "after the account under test; in half of those a rebalancing request object is first sent to that other "
-                "account and then to the account under test.")
+                "account and then to the account under test. About one operation in 25 is one the library legitimately refuses "
+                "(a trade of zero / NaN size, an accrual at an earlier time, a rebalance whose time stamp is already recorded, a "
+                "rebalance that has to buy a contract whose ask has just disappeared), "
+                "after which the history goes on.")
 
 
 def gen_history(rng, tier="quick", exact=None, allow=None, fees=None, nmax=None, one_sided=True):
@@ -561,6 +578,41 @@ def gen_history(rng, tier="quick", exact=None, allow=None, fees=None, nmax=None,
                 ops.append(["q", k, t, fr(b), fr(a)])
                 ops.append(["nlv", rng.choice([0, 0, 1])] if rng.random() < 0.8 else ["weights"])
             continue
+        if rng.random() < 0.04 and i > 2:
+            # an operation the library legitimately refuses, after which the history goes on: a trade of zero or NaN
+            # size, an accrual at an earlier time, a second rebalance with a time stamp already recorded
+            kinds = [x for x in ("tradeq", "accrue", "rebal") if x in allow]
+            if "rebal" in allow and "q" in allow and pos.get(k, 0) >= 0 and one_sided:
+                kinds += ["unpriced-leg", "unpriced-leg"]
+            if kinds:
+                what = rng.choice(kinds)
+                if what == "unpriced-leg":
+                    # the ask of a contract that is flat or held long disappears, a request that has to buy it is
+                    # refused while its trades are being built (after the account was valued), the ask comes back
+                    mids[k], b, a = gen_price(rng, exact, mids[k])
+                    ops.append(["q", k, t, fr(b), "nan"])
+                    t += 1
+                    tgt = {kk: fr(Fraction(rng.randint(1, 6), 8)) for kk in keys if kk == k or rng.random() < 0.4}
+                    ops.append(["rebal", t, 1, 1, 1, "0", tgt])
+                    ops.append(["q", k, t + 1, fr(b), fr(a)])
+                    for kk in keys:
+                        pos[kk] = pos[kk] if pos[kk] != 0 else Fraction(0)
+                    trusted = False
+                elif what == "tradeq":
+                    ops.append(["tradeq", k, rng.choice(["0", "nan"]), t])
+                elif what == "accrue":
+                    prev = [o[1] for o in ops if o[0] in ("accrue", "rebal")]
+                    if prev:
+                        ops.append(["accrue", max(prev) - rng.choice([1, DAY]), 1])
+                else:
+                    prev = [o for o in ops if o[0] == "rebal"]
+                    if prev:
+                        ops.append(list(prev[-1][:7]))
+                        for kk in keys:
+                            pos[kk] = Fraction(1)
+                        trusted = False
+                ops.append(["nlv", 0])
+                continue
         if u < 0.25 and "q" in allow:
             old_mid = mids[k]
             mids[k], b, a = gen_price(rng, exact, mids[k])
